@@ -34,9 +34,9 @@ ASSUMPTIONS = [
 ] + ["reference choice where the statement is silent: " + s for s in floref.SILENT]
 
 
-def h(sym, n, symticks, parent, aux_frames, end, running=False, reuse=False):
+def h(sym, n, symticks, parent, aux_frames, end, running=False, reuse=False, first=None):
     prog, info = flostep.family(sym, n, ngo=1, auxes=("cond",), parent=parent, near_in_cur=True, host_in_cur=True,
-                                aux_frames=aux_frames, cond_second_host=reuse)
+                                aux_frames=aux_frames, cond_second_host=reuse, first=first)
     controls = [START]
     plan = [{"*": 1}]
     if running:     # concrete prelude tick: the auxiliary's condition holds, it does not complete, no transition
@@ -204,12 +204,14 @@ def obligations(tier):
                     covers.append("completed-and-resumed")
             if reuse:
                 covers = ["aux-running"]
-            out.append(Ob("step/N%d-%s-sym%d-aux%d-%s/%s" % (n, ("reuse" if reuse else "running") if running else "fresh", symticks, aux_frames,
+            firsts = list(range(n)) if (reuse and tier == "quick") else [None]      # the reuse shards are the largest: one shard per first frame
+            for first in firsts:
+              out.append(Ob("step/N%d-%s-sym%d-aux%d-%s/%s%s" % (n, ("reuse" if reuse else "running") if running else "fresh", symticks, aux_frames,
                                                           {None: "run", 0: "stop", 3: "abort"}[end],
-                                                          "".join("r" if q < 0 else str(q) for q in parent)),
-                          h, dict(n=n, symticks=symticks, parent=parent, aux_frames=aux_frames, end=end, running=running, reuse=reuse),
-                          budget=600 if tier == "quick" else 2400, covers=covers,
-                          bounds=dict(frames=n, forest=parent, first="any", aux_frames=aux_frames, symbolic_ticks=symticks,
+                                                          "".join("r" if q < 0 else str(q) for q in parent), "" if first is None else "/first%d" % first),
+                          h, dict(n=n, symticks=symticks, parent=parent, aux_frames=aux_frames, end=end, running=running, reuse=reuse, first=first),
+                          budget=600 if tier == "quick" else 2400, covers=covers if first is None else [],
+                          bounds=dict(frames=n, forest=parent, first="any" if first is None else first, aux_frames=aux_frames, symbolic_ticks=symticks,
                                       prelude="start" + (" + one tick activating the conditional auxiliary" if running else ""),
                                       share_values="[0,1]")))
     return out
